@@ -371,6 +371,8 @@ def run(tier, rep):
     n = 400 if tier == 'quick' else 6000
     for i in range(n):
         progs.append({'id': 'p%d' % i, 'src': progen.raw_program(r, maxdepth=r.choice([2, 3, 4]), nstmts=r.randrange(2, 6))})
+    import g6corpus
+    progs += [{'id': c['id'], 'src': c['src']} for c in g6corpus.programs(r, 600 if tier == 'quick' else 10000, prefix='g6p')]
     reprogs = reentrant_programs(tier, r)
     remeta = {p['id']: p for p in reprogs}
     progs += [{'id': p['id'], 'src': p['src']} for p in reprogs]
@@ -397,7 +399,7 @@ def run(tier, rep):
     rep.nontrivial = nontriv
     rep.samples = [{'kind': c['kind'], 'callable': sig_target(c), 'receiver': c.get('recv'), 'args': (expand(c) or [[]])[min(3, len(expand(c)) - 1)], 'kw': c.get('kw')} for c in C[:6]]
     rep.rule = ('every callable in builtins (%d) and in the attribute table of the type of every universe value (bound to a receiver and unbound), every unary/binary/ternary operator entry point of the py package and %d source snippets compiled and run by the VM, '
-                'x all argument tuples of arity 0-2 over a universe of %d values (huge values only sampled in quick) and arity 3 over a %d-value sub-universe, plus keyword forms; plus generated programs; plus re-entrant callback programs: %d container operations x %d mutations of the container performed by the callback (key function, rich comparison, __hash__, __index__, __iter__, __repr__, feeding generator) x trigger position; '
+                'x all argument tuples of arity 0-2 over a universe of %d values (huge values only sampled in quick) and arity 3 over a %d-value sub-universe, plus keyword forms; plus generated programs (program generator; full-grammar modules of the C06 generator over a universal object); plus re-entrant callback programs: %d container operations x %d mutations of the container performed by the callback (key function, rich comparison, __hash__, __index__, __iter__, __repr__, feeding generator) x trigger position; '
                 'non-trivial = distinct (callable, outcome class) pairs observed' % (len(L['builtins']), len([s for s in L['snippets'] if s]), len(L['universe']), 14, len(RE_OPS), len(RE_ACTIONS)))
     rep.extra = {'calls': ncalls, 'batches': len(C), 'batches_redone': len(redo), 'outcome_classes': dict(sorted(outcomes.items(), key=lambda kv: -kv[1])[:25]), 'programs': len(progs), 'reentrant_programs': len(reprogs), 'reentrant_outcomes': re_out, 'universe': L['universe']}
     rep.assumptions = ['pure CPU time (e.g. sum(range(2**62))) is inconclusive; process aborts and Go panics are violations', 'workers run with GOMEMLIMIT=3GiB; cwd is a scratch directory']
